@@ -6,7 +6,7 @@
    (Resp node body | TimerFire | CtxDone), for an arbitrary configuration [cfg] and arbitrary choices [sc] of
    everything Go leaves to chance (map iteration orders, shuffles, request ids, Send failures).  [edv] / [vrs]
    are the ed25519 and RMNCrypto.VerifyReportSignatures oracles.  All theorems are for all of these. *)
-Require Import Verif.Model.Base Verif.Model.Rmn Verif.Proofs.RmnP.
+Require Import Verif.Model.Base Verif.Model.Rmn Verif.Model.RmnHist Verif.Proofs.RmnP Verif.Proofs.RmnHistP.
 From Coq Require Import Sorting.Sorted.
 
 (* Phase A (getRmnSignedObservations) hands observations on only if, for every requested lane that has enough
@@ -180,3 +180,92 @@ Theorem C06_sort_panic_unfixed_refuted :
     (exists s, run edv vrs fixed cfg sc evs = GB s).
 Proof. exact sort_panic_unfixed_refuted. Qed.
 Print Assumptions C06_sort_panic_unfixed_refuted.
+
+(* ---------- histories: a SEQUENCE of calls on one long-lived controller (Model/RmnHist.v) ----------
+   [hrun] is the multi-call machine: an event is either a new ComputeReportSignatures call — with the configuration
+   that RMNHome / RMNRemote / the plugin present at THAT moment and Go's random choices for that call — or an event of
+   the select loop of the call in progress.  The one thing it threads from call to call is the position in the global
+   request-id stream [gid].  [flatten calls] is the concatenated history of a list of calls, [hmap] applies the
+   single-call machine [run] to every call on its own. *)
+
+(* Running the multi-call machine over the concatenated history equals mapping the single-call machine over the calls:
+   the result of call k is the model result on call k's configuration and event list alone — nothing read, counted or
+   asked in an earlier call survives into it.  For every history (induction over the list of calls), every
+   configuration sequence, every id stream, also for the pre-repair switches [fx]. *)
+Theorem C06_history_memoryless : forall edv vrs fx gid (calls : list call),
+  hresults (hrun edv vrs fx gid (flatten calls)) = hmap edv vrs fx gid 0 calls.
+Proof. exact history_memoryless. Qed.
+Print Assumptions C06_history_memoryless.
+
+(* C06_sig_threshold lifted to every call of every history: a call that succeeds has F_home+1 distinct observers per
+   lane and F_remote+1 distinct signers IN THE CONFIGURATION CURRENT AT THAT CALL, each witnessed by a response among
+   THAT call's own events — a node that was an observer (a signer) in an earlier call, or a vote received by an
+   earlier call, counts for nothing. *)
+Theorem C06_history_sig_threshold : forall edv vrs gid (calls : list call) c off g,
+  In (c, (off, g)) (combine calls (hresults (hrun edv vrs fixed gid (flatten calls)))) ->
+  NoDup (map sg_node (c_signers (cl_cfg c))) ->
+  forall sigs rep log, g = GFinal (Success sigs rep) log ->
+  exists us, prepare (cl_cfg c) = inl (Ok us) /\
+    (Permutation (map fst rep) (map u_req us) /\
+     StronglySorted (fun a b => (lr_chain (fst a) <= lr_chain (fst b))%N) rep /\
+     forall q r, In (q, r) rep ->
+       exists u, In u us /\ q = u_req u /\ r <> 0%N /\
+         exists voters, NoDup voters /\ (u_F u + 1 <= zlen voters)%Z /\
+           forall n, In n voters -> vote_evidence edv (cl_cfg c) (cl_evs c) n q r) /\
+    exists entries : list (node * N * N),
+      sigs = map snd entries /\
+      NoDup (map snode entries) /\
+      (c_remoteF (cl_cfg c) + 1 <= zlen entries)%Z /\
+      StronglySorted (fun a b => (saddr a <= saddr b)%N) entries /\
+      forall x, In x entries -> sig_evidence vrs (cl_cfg c) (cl_evs c) rep x.
+Proof. exact history_sig_threshold. Qed.
+Print Assumptions C06_history_sig_threshold.
+
+(* C06_obs_threshold likewise: whenever phase A of any call of any history hands its observations on, every lane has
+   a root with F_home+1 distinct voters that are configured observers at that call and answered within that call. *)
+Theorem C06_history_obs_threshold : forall edv vrs gid (calls : list call) c off g,
+  In (c, (off, g)) (combine calls (hresults (hrun edv vrs fixed gid (flatten calls)))) ->
+  NoDup (map sg_node (c_signers (cl_cfg c))) ->
+  forall us s e acc, g = GA us s ->
+  stepA edv fixed (cl_cfg c) (with_ids gid off (cl_sc c)) us s e = Done (inl acc) ->
+  forall u, In u us ->
+  exists r voters,
+    NoDup voters /\ (u_F u + 1 <= zlen voters)%Z /\
+    forall n, In n voters -> vote_evidence edv (cl_cfg c) (cl_evs c ++ [e]) n (u_req u) r.
+Proof.
+  intros edv vrs gid calls c off g H ND us s e acc E Es u Hu.
+  destruct (history_obs_threshold edv vrs gid calls c off g H ND us s e acc E Es u Hu) as (r & vs & A & B & C).
+  exists r, vs. auto.
+Qed.
+Print Assumptions C06_history_obs_threshold.
+
+(* What legitimately outlives a call — answers to ITS requests that arrive while a LATER call is listening — is
+   without influence: if request ids never repeat, the result of every call is the result on its event list with
+   every response under an id issued before that call removed. *)
+Theorem C06_history_leftover_ignored : forall edv vrs fx (gid : nat -> reqid) (calls : list call),
+  (forall i j, gid i = gid j -> i = j) ->
+  forall c off g, In (c, (off, g)) (combine calls (hresults (hrun edv vrs fx gid (flatten calls)))) ->
+  g = run edv vrs fx (cl_cfg c) (with_ids gid off (cl_sc c)) (filter (not_leftover gid off) (cl_evs c)).
+Proof. exact leftover_ignored. Qed.
+Print Assumptions C06_history_leftover_ignored.
+
+(* Non-vacuity, two concrete histories on Witness.cfg (3 observers of lane 5, F_home = 1) with an injective id stream.
+   (a) Between the calls nodes 2 and 3 stop being observers UNDER THE SAME CONFIG DIGEST: the first call succeeds, the
+   second — which sees the same honest answers again — ends with ErrNothingToDo and asks nobody.
+   (b) Nothing changes, and the answers to the first call arrive a second time during the second call: all of them
+   are leftovers (ids 1..4, the second call issued 5..), the second call has accepted nothing and is still waiting. *)
+Theorem C06_history_example :
+  (forall i j, HistWitness.gid i = HistWitness.gid j -> i = j) /\
+  (exists log,
+     hresults (hrun Witness.edv Witness.vrs fixed HistWitness.gid (flatten HistWitness.two_calls)) =
+     [(0%nat, GFinal (Success [1101; 1201]%N [(mkLaneReq 5 35 10 20, 105)]%N) log);
+      (4%nat, GFinal (Failure FNothingToDo) [])]) /\
+  (exists log us s,
+     hresults (hrun Witness.edv Witness.vrs fixed HistWitness.gid (flatten HistWitness.replayed)) =
+     [(0%nat, GFinal (Success [1101; 1201]%N [(mkLaneReq 5 35 10 20, 105)]%N) log); (4%nat, GA us s)] /\
+     a_acc s = [] /\ filter (not_leftover HistWitness.gid 4) Witness.good_run = []).
+Proof.
+  split; [exact HistWitness.gid_injective|].
+  split; [exact HistWitness.two_calls_results|exact HistWitness.replayed_second_call_waits].
+Qed.
+Print Assumptions C06_history_example.
